@@ -421,6 +421,9 @@ def FACT(number):
         return number
     if number < 0:
         return error.NUM
+    if number >= 171:
+        # beyond the largest number a sheet can hold (170! is 7.3e306); FACT(1e9) would never return
+        return error.NUM
     return math.factorial(int(number))
 
 
@@ -430,6 +433,9 @@ def FACTDOUBLE(number):
     if isinstance(number, error.XLError):
         return number
     if number < 0:
+        return error.NUM
+    if number >= 301:
+        # 300!! is 8.2e307, the last one a sheet can hold
         return error.NUM
     number = int(number)
     if number in (0, 1):
